@@ -15,7 +15,7 @@ TECHNIQUE = ("hypothesis circuits per target device (restricted to what its own 
              "default.qubit with the same wires configuration; differential comparison of every analytic result")
 RULE = (
     "Targets: default.mixed (1-5 wires, full gate table + GlobalPhase/MultiRZ/PauliRot/QubitUnitary/MultiControlledX/adjoint, leading "
-    "BasisState/StatePrep, optional broadcast parameter, channels with strength 0 interleaved; all analytic measurements; qp.state is "
+    "BasisState/StatePrep, optional broadcast parameter, channels with strength 0 interleaved (an Identity on the same wires in the baseline); all analytic measurements; qp.state is "
     "compared as |psi><psi|), reference.qubit (1-4 wires, same circuits; expval/var/probs/state/density_matrix/purity/entropies), "
     "default.tensor method=mps (max_bond_dim None or >= 2^floor(n/2), contract auto-mps/swap+split/nonlocal) and method=tn (contract "
     "auto-split-gate/split-gate/...), 1-6 wires, expval/var of Pauli words, sums, Hermitian, LinearCombination and state; "
@@ -254,9 +254,14 @@ def check(spec):
             if o["op"] in ("Hermitian", "Projector", "SparseHamiltonian"):
                 return True
             return any(nonpauli(x) for x in o.get("operands", [])) or nonpauli(o.get("base"))
+        # reference.qubit simulates the register tape.wires (device wires only enter through wire-less measurements): labels are positions only
+        # if BOTH the device wires and the tape wires are 0..n-1 in order (device(wires=4), vn_entropy(wires=[3]) on an empty circuit has the
+        # one-qubit register [3]: same recorded defect, "3 is not in list").
         tw = list(tape_t.wires) if not dev_wires else list(dev_wires)
+        tw2 = list(tape_t.wires)
         feats.update({"ref_nonpauli_obs": any(nonpauli(m.get("obs")) for m in spec["meas"]),
-                      "ref_labels_not_positions": tw != list(range(len(tw)))})
+                      "ref_labels_not_positions": tw != list(range(len(tw))) or tw2 != list(range(len(tw2)))})
+    dev_first_use = None
     if nm == "default.tensor":
         first = spec["ops"][0] if spec["ops"] else None
         feats["partial_prep"] = bool(first and first["op"] in ("BasisState", "StatePrep") and dev_wires and
@@ -268,12 +273,17 @@ def check(spec):
         dev_level = False
         try:
             (pt0,), _ = _mk_device(tgt, dev_wires).preprocess()[0]([tape_t])
+            dev_first_use = list(qp.wires.Wires.all_wires([op.wires for op in pt0.operations]))
             dev_level = any(type(op).__name__ in ("MultiRZ", "PauliRot") and len(op.wires) >= 2 for op in pt0.operations)
         except Exception:  # noqa: BLE001  (the execution below rejects or reports it)
             pass
         spec_level = any(_leaf(o) in ("MultiRZ", "PauliRot") and len(_leafspec(o)["w"]) >= 2 for o in spec["ops"])
         feats["mps_multirz"] = tgt["method"] == "mps" and (spec_level or dev_level)
         feats["tn_multirz"] = tgt["method"] == "tn" and (spec_level or dev_level)
+    # default.qubit (the reference side) sizes and orders wire-less results of a device without wires by the tape left after ITS preprocessing,
+    # which deletes Barrier: a wire that only carries a Barrier is dropped (or moved behind the gate wires when a measurement names it).
+    used = {w for o in spec["ops"] if _leaf(o) != "Barrier" for w in _leafspec(o).get("w", [])}
+    feats["barrier_only_wire"] = bool(not dev_wires and any(w not in used for o in spec["ops"] if _leaf(o) == "Barrier" for w in _leafspec(o).get("w", [])))
     if not dev_wires and not len(tape_b.wires):
         raise Reject("no wires at all")
     if not dev_wires and any(m["mp"] == "state" for m in spec["meas"]) and set(tape_b.wires) != set(w for op in ops_b for w in op.wires):
@@ -327,6 +337,7 @@ def check(spec):
         what = f"{nm} {tgt} {m} dev_wires={spec.get('dev_wires')} batch={batch} ops={spec['ops']}"
         f2 = {**feats, "mp": m["mp"]}
         pre = ""
+        wireless = m["mp"] == "state" or (m["mp"] == "probs" and m.get("w") is None and not m.get("obs"))
         if nm == "default.clifford":
             pre = "stateprep:" if feats.get("stateprep") else ("idle-tail:" if feats.get("idle_tail") else "")
             if feats.get("projector_no_tableau") and m["mp"] == "expval" and m["obs"]["op"] == "Projector":
@@ -345,14 +356,18 @@ def check(spec):
         if nm == "reference.qubit" and batch == 1 and m.get("obs") and m["obs"]["op"] in ("s_prod", "sum", "lincomb") and not pre:
             pre = "batch1-sum:"
             f2["ref_batch1_sum"] = True
+        if feats.get("barrier_only_wire") and wireless and nm in ("default.clifford", "reference.qubit"):
+            pre = "barrier-only:"
         t = tol
         if name == "StateMP" and nm in ("default.tensor", "reference.qubit") and dev_wires and g.shape == b.shape and not close(g, b, t):
             alt_order = _standard_order(tape_t)
             # default.tensor maps the circuit to standard wires by FIRST USE whenever a mapping is needed (e.g. an idle device wire in state(wires=
             # device wires)), also when the gate wires are a permutation of 0..n-1: first-use order + unused device wires is a candidate too.
+            # The order of first use is that of the DEVICE-level circuit (CH(3,x) decomposes into gates that touch x first).
             first_use = list(tape_t.wires)
+            dfu = (dev_first_use if nm == "default.tensor" and dev_first_use is not None else first_use)
             for cand in (alt_order + [w for w in dev_wires if w not in alt_order], sorted(dev_wires, key=lambda w: (str(type(w)), w)), first_use,
-                         first_use + [w for w in dev_wires if w not in first_use]):
+                         first_use + [w for w in dev_wires if w not in first_use], dfu + [w for w in dev_wires if w not in dfu]):
                 if len(cand) == len(dev_wires):
                     alt = sim.run_ops(tape_b.operations, cand) if batch is None else None
                     if alt is not None and alt.shape == g.shape and close(g, alt, t):
